@@ -199,6 +199,43 @@ func ruleR18_4(w *World, r *Report) {
 	if !found {
 		r.Bad("ReceiveNotification/own notification ignored", u.Pos(rcv.Pos()), "a notification no longer triggers a sync")
 	}
+	// ... and a replica that is behind does sync: from the true edge of NeedPull every path reaches the sync
+	// (waiting for the semaphore is fine, giving up silently is not: nobody repeats a dropped notification)
+	for _, nd := range d.nodes {
+		for _, b := range nd.fn.Blocks {
+			if len(b.Instrs) == 0 {
+				continue
+			}
+			ifi, isIf := b.Instrs[len(b.Instrs)-1].(*ssa.If)
+			if !isIf {
+				continue
+			}
+			l := normLit(condEdge{ifi.Cond, true})
+			if l.Kind != "call" || calleeName(l.Call) != "NeedPull" {
+				continue
+			}
+			entry := b.Succs[0]
+			if !l.Pol {
+				entry = b.Succs[1]
+			}
+			reach, bad := mustReachFromBlock(entry, func(in ssa.Instruction) bool {
+				if ci, ok := in.(ssa.CallInstruction); ok && (calleeName(ci) == "sync" || calleeName(ci) == "syncPushPullPacks") {
+					if _, isDefer := in.(*ssa.Defer); !isDefer {
+						return true
+					}
+				}
+				if ret, ok := in.(*ssa.Return); ok && returnsNonNilLast(ret) {
+					return true
+				}
+				return false
+			})
+			pos := u.Pos(ifi.Pos())
+			if bad != nil {
+				pos = u.Pos(bad.Pos())
+			}
+			r.Check(reach, "ReceiveNotification/a replica that is behind syncs", pos, "sync on every path after NeedPull", "after NeedPull answered true there is a path that returns without syncing and without an error (e.g. when the semaphore is busy): the notification is dropped, nobody repeats it, and the realtime replica stays behind")
+		}
+	}
 	for _, x := range d.calls("NeedPull") {
 		a := x.in.(ssa.CallInstruction).Common().Args
 		got := d.name(x.n, a[len(a)-1])
